@@ -422,7 +422,11 @@ def renderings(nc):
     from yamlpath.enums import PathSeparators
     if nc.path is None:
         return [("as-reported", None)]
-    out = [("as-reported", str(nc.path))]
+    try:
+        out = [("as-reported", str(nc.path))]
+    except Exception:
+        # the reported path does not render (its own text does not parse): query the text it was built from
+        return [("as-reported", str(getattr(nc.path, "original", "<unprintable>")))]
     p2 = YAMLPath(nc.path)
     other = PathSeparators.DOT if p2.separator is PathSeparators.FSLASH else PathSeparators.FSLASH
     p2.separator = other
@@ -522,8 +526,17 @@ def _res_repr(res):
                            for r in res) + "]"
 
 
+def _path_text(nc):
+    if nc.path is None:
+        return None
+    try:
+        return str(nc.path)
+    except Exception as e:                          # a reported path that does not even render: a requery miss, not a crash
+        return "<unprintable:%s>" % type(e).__name__
+
+
 def snapshot_coords(nc):
-    return (id(nc.node), id(nc.parent), repr(nc.parentref), None if nc.path is None else str(nc.path),
+    return (id(nc.node), id(nc.parent), repr(nc.parentref), _path_text(nc),
             tuple((id(a), repr(r)) for a, r in nc.ancestry))
 
 
